@@ -978,10 +978,10 @@ func runCase(c *hc.Ctx, r *hc.RNG, base, self string, idx int, sc scenario) erro
 			return err
 		}
 		w := strings.Fields(out)
-		if len(w) < 3 {
+		if len(w) < 4 {
 			return fmt.Errorf("driver answered %q", out)
 		}
-		flags, modelTok = w[0]+" "+w[1], w[3:]
+		flags, modelTok = w[0]+" "+w[1]+" "+w[2], w[4:]
 	} else {
 		var lines []string
 		for _, cp := range cps {
@@ -1000,7 +1000,8 @@ func runCase(c *hc.Ctx, r *hc.RNG, base, self string, idx int, sc scenario) erro
 		return nil
 	}
 	// the observed trace must be inside the class the theorems cover
-	if c.Compare("shape "+full, "atomic=1 fresh=1", flags) {
+	// (atomic + fresh: atomic_replace_safe*; durable: repeated_saves_safe needs the directory fsync to have succeeded)
+	if c.Compare("shape "+full, "atomic=1 fresh=1 durable=1", flags) {
 		c.Res.TracesValidated++
 	}
 	plShown := false
